@@ -438,7 +438,7 @@ pub fn run(args: &Args, report: &mut Report) {
         }
         return;
     }
-    let n = report.size(240, 5000);
+    let n = report.size(240, 15_000);
     for i in 0..n {
         if too_many_hangs(report) {
             report.inconclusive("remaining cases not run after repeated unfinished runs");
